@@ -14,7 +14,9 @@ try:
     if s.count(old) != 1:
         print(f"edit target occurs {s.count(old)} times", file=sys.stderr); sys.exit(3)
     open(p, "w").write(s.replace(old, new))
-    env = dict(os.environ, YAW_SRC=tmp + "/src")
+    verif = os.path.dirname(os.path.dirname(os.path.abspath(__file__)))
+    subprocess.check_call(["cp", "-a", os.path.join(verif, "lean"), tmp + "/lean"])      # private Lean project (Generated/ is rewritten)
+    env = dict(os.environ, YAW_SRC=tmp + "/src", YAW_LEAN_DIR=tmp + "/lean")
     sys.exit(subprocess.call(cmd, env=env))
 finally:
     shutil.rmtree(tmp, ignore_errors=True)
